@@ -31,7 +31,7 @@ NCPU = min(16, os.cpu_count() or 4)
 REALISTIC = ("18015.3", "1000000")       # W is water (18.0153 g/mol, 1 g/mL), volumes of ~0.1 L
 DECIMAL = ("2000", "20000")              # 2 mL and 20 mmol per model unit (W: 100 g/mol): lattice values with 2^k denominators are
                                          # short decimals and stay in the range where the library's 1e-10 rounding is effective
-TINY = ("36.0306", "2")                  # 36 uL / 2 umol per unit: micro-scale amounts
+TINY = ("36.0306", "0.1")                # 36 uL / 0.1 umol per unit: sub-micromole amounts (a heavy solute)
 BIG = ("1801530", "100000000")           # 1.8 L / 100 mol per unit: stays far above the rounding quantum of every storage configuration
 
 
